@@ -104,12 +104,28 @@ def _get_request(self):
     t0 = time.monotonic()
     res = _orig_get_request(self)
     try:
-        request, (addr, _wsock) = res
+        request, (addr, wsock) = res
         new = [s for s in self.worker_sockets if s not in before]
-        run.on_accept(self, addr, new[0] if len(new) == 1 else None, t0)
+        c = run.on_accept(self, addr, new[0] if len(new) == 1 else None, t0)
+        res = (request, (addr, CloseStamp(wsock, run, c)))
     except Exception:   # a changed get_request must not crash the driver
         run.note("get_request hook: " + traceback.format_exc())
     return res
+
+
+class CloseStamp:
+    """the thread's end of the worker socket pair; notes the time just BEFORE it is closed"""
+
+    def __init__(self, sock, run, c):
+        self._sock, self._run, self._c = sock, run, c
+
+    def close(self):
+        if self._c is not None and self._c not in self._run.t_closing:
+            self._run.t_closing[self._c] = time.monotonic()
+        return self._sock.close()
+
+    def __getattr__(self, name):
+        return getattr(self._sock, name)
 
 
 rs.Application = HarnessApp
@@ -227,6 +243,7 @@ class Run:
         self.wsock_conn = {}         # worker socket -> conn id
         self.acc_seq = 0
         self.accept_log = []         # (sel_k, lis, c)
+        self.t_closing = {}          # conn -> time just before its thread closed the worker socket
         self.sel_calls = []          # per select call: dict
         self.sel_k = -1
         self.parked = threading.Event()
@@ -288,6 +305,7 @@ class Run:
                 self.acc_seq += 1
                 if wsock is not None:
                     self.wsock_conn[wsock] = c
+            return c
 
     def classify(self, socks):
         ws, ls, st, other = [], [], False, 0
@@ -609,13 +627,17 @@ class Run:
         if self.t_return is None:
             return
         self.returned_emitted = True
+        early = [c for c in self.final_workers if self.t_closing.get(c) is None or self.t_closing[c] > self.t_return]
+        for c in self.final_workers:
+            cl = self.clients[c]
+            if c not in early and not cl.done and cl in self.silent():
+                self.timeout_seen(cl)      # its socket timeout fired before serve() returned
         for c in self.final_workers:
             self.emit("LFinal", [], [["OWaited", c]])
         self.emit("LClose", [], [["OReturned"]])
-        pending = [c for c in self.final_workers if not self.clients[c].done]
-        if pending:
+        if early:
             self.fail.append(dict(what="serve() returned while accepted connections were still being processed",
-                                  conns=pending))
+                                  conns=early))
         if self.serve_exc:
             self.fail.append(dict(what="serve() raised", exc=self.serve_exc))
 
@@ -718,18 +740,22 @@ class Run:
                 else:
                     self.notes.append("replay: op %r not enabled, skipped" % (op,))
         else:
-            p_stop = rng.choice([0.0, 0.02, 0.08])
+            p_stop = rng.choice([0.0, 0.0, 0.03, 0.1])
             for _ in range(nops):
                 ops = self.enabled_ops("random")
                 ops = [o for o in ops if o[0] != "stop" or rng.random() < p_stop]
                 if not ops:
                     break
-                # prefer arrivals early so that more clients than slots exist
-                w = [3 if o[0] == "connect" and len(self.clients) < self.cfg["nmax"] // 2 + 1 else 1 for o in ops]
+                # prefer arrivals early so that more clients than slots exist; clients rather send than hang up
+                w = [3 if (o[0] == "connect" and len(self.clients) < self.cfg["nmax"] // 2 + 1) or o[0] == "send" else 1
+                     for o in ops]
                 op = rng.choices(ops, weights=w)[0]
                 self.do(list(op))
                 if op[0] == "iter" and self.broke:
                     self.quiet_check()
+            if not self.stopped and rng.random() < 0.5:
+                # shutdown while things are in flight
+                self.do(["stop"])
         self.wrap_up()
 
     def wrap_up(self):
@@ -737,7 +763,7 @@ class Run:
         rng = self.rng
         short = 0 < float(self.cfg["timeout"]) < 5
         guard = 0
-        while not self.broke:
+        while not self.broke and not self.stopped:
             guard += 1
             if guard > 400:
                 self.fail.append(dict(what="wrap-up does not terminate"))
